@@ -96,6 +96,7 @@ func genC17(env *core.Env, emit func(core.Case)) {
 				var mu sync.Mutex
 				var calls []dialCall
 				si2 := 0
+				won := false // an attempt has succeeded: what the worker still starts before Dial's cancel() lands is a late attempt too
 				d := &ech.Dialer[*fakeTLS]{RequireECH: requireECH, Resolver: resolver, MaxConcurrency: 1, ConcurrencyDelay: time.Millisecond, Timeout: 5 * time.Second}
 				if usePN {
 					d.PublicName = "public.example"
@@ -103,9 +104,12 @@ func genC17(env *core.Env, emit func(core.Case)) {
 				d.DialFunc = func(ctx context.Context, network, a string, tc *tls.Config) (*fakeTLS, error) {
 					mu.Lock()
 					defer mu.Unlock()
-					if ctx.Err() != nil {
+					if ctx.Err() != nil || won {
 						calls = append(calls, dialCall{a, tc.ServerName, tc.EncryptedClientHelloConfigList, true})
-						return nil, ctx.Err()
+						if ctx.Err() != nil {
+							return nil, ctx.Err()
+						}
+						return nil, errors.New("scripted dial error (late attempt)")
 					}
 					calls = append(calls, dialCall{a, tc.ServerName, tc.EncryptedClientHelloConfigList, false})
 					o := "err"
@@ -115,6 +119,7 @@ func genC17(env *core.Env, emit func(core.Case)) {
 					si2++
 					switch o {
 					case "ok":
+						won = true
 						return &fakeTLS{a}, nil
 					case "rej:1":
 						return nil, fmt.Errorf("wrapped: %w", &tls.ECHRejectionError{RetryConfigList: retry1})
